@@ -121,6 +121,13 @@ def run_case(case):
                 if j[0] != o.value:
                     acc.fail('jackknife:entry0', sub, 'entry 0 %r != value %r' % (j[0], o.value))
                     continue
+                # the exported array belongs to the caller: changing it in place has no effect on later exports
+                jc = o.export_jackknife()
+                jc *= 2.0
+                jc[1] = -7.0
+                if not np.array_equal(o.export_jackknife(), j):
+                    acc.fail('jackknife:export-aliased', sub, 'n=%d %s %s: after the caller changed an exported array in place, a new export differs from the first one' % (n, ik, d))
+                    continue
                 back = pe.import_jackknife(j, 'A|r1', idl=[o.idl['A|r1']])
                 bad = None
                 if back.value != o.value:
